@@ -8,6 +8,7 @@ Ok with the same payload, hash and fee, or Err of the same kind.  CBOR encoders 
 uninterpreted *injective* functions (decode . encode = id), an encoded length is an uninterpreted
 function of the encoded value: two outcomes are reported different only when the structures they
 are computed from differ for some value of these functions."""
+import os
 import z3
 from values import *
 import models
@@ -78,11 +79,11 @@ def h_history(ctx, tier, seed, n_outputs=2):
     elif hist >= 3:
         if hist == 5:
             # an earlier resolution that uses min_utxo itself and *fails* in its second pass, after the
-            # compiler ops of that pass were evaluated: `until_slot: 1000 - fees` is a valid slot with
+            # compiler ops of that pass were evaluated: `until_slot: Ada(1000) - fees` is a valid slot with
             # the first pass's fee of 0 and negative with any real fee
             earlier = mk_tx(T, fees=fees_leaf(T), outputs=[out(T, address=T.address([0x60] + [9] * 28), amount=builtin(T, "Add", T.v("Expression", "EvalCompiler", BoxV(T.v("CompilerOp", "ComputeMinUtxo", T.num(k)))), ada(T, T.num(11)))),
                                                             out(T, address=T.address([0x60] + [8] * 28), amount=ada(T, T.num(3000000)))][:max(k + 1, 1)],
-                            validity=some(T.st("Validity", since=T.none(), until=builtin(T, "Sub", T.num(1000), fees_leaf(T)))))
+                            validity=some(T.st("Validity", since=T.none(), until=builtin(T, "Sub", ada(T, T.num(1000)), fees_leaf(T)))))
         else:
             earlier = mk_tx(T, fees=fees_leaf(T), outputs=[out(T, address=T.address([0x60] + [9] * 28), amount=ada(T, T.num(3000000)))] if hist == 3 else [])
         ctx.earlier_tx = earlier
@@ -139,3 +140,79 @@ def _h(name, fn, bounds, tier="quick", **kw):
 HARNESSES = [
     _h("c20_history_min_utxo", h_history, "template with 2 outputs, min_utxo(k) for k in {0,1} + fees; earlier state: none / an arbitrary body with 0, 1, 2 outputs left behind / a real earlier resolution of a template with 1 or 0 outputs, or of one that uses min_utxo and fails in its second pass; resolve_tx with max_optimize_rounds = 3 (up to 5 passes)", max_paths=50000),
 ]
+
+
+# ---- a target with an input: a stale value can make the *first* pass fail ---------------------------
+
+def failing_history(T, k, datum=None):
+    """uses min_utxo(k) and fails in its second pass, after that pass's compiler ops were evaluated"""
+    outs = [out(T, address=T.address([0x60] + [9] * 28), datum=datum, amount=builtin(T, "Add", T.v("Expression", "EvalCompiler", BoxV(T.v("CompilerOp", "ComputeMinUtxo", T.num(k)))), ada(T, T.num(11)))),
+            out(T, address=T.address([0x60] + [8] * 28), amount=ada(T, T.num(3000000)))][:max(k + 1, 1)]
+    if k == 1:
+        outs = [outs[1], outs[0]]
+    return mk_tx(T, fees=fees_leaf(T), outputs=outs, validity=some(T.st("Validity", since=T.none(), until=builtin(T, "Sub", ada(T, T.num(1000)), fees_leaf(T)))))
+
+
+def h_history_input(ctx, tier, seed):
+    """target: `input src { from: A, min_amount: fees + min_utxo(0) }`, one output `src - fees`, over a
+    store holding one UTxO of symbolic value; instance: fresh, or reused after a resolution that used
+    min_utxo and failed in its second pass.  Same Ok / same kind of error on both."""
+    from harness import c03
+    eng = ctx.eng
+    ctx.amount_bits = 48
+    store = c03.Store(ctx, 1)
+    store.install(eng)
+    T = store.T
+    eng.assume(z3.And(store.addr[0] == c03.ADDR_A, z3.Not(store.has_tok[0])))
+    minutxo = T.v("Expression", "EvalCompiler", BoxV(T.v("CompilerOp", "ComputeMinUtxo", T.num(0))))
+    iq = T.st("InputQuery", address=T.address(c03.addr_bytes(c03.ADDR_A)), min_amount=builtin(T, "Add", fees_leaf(T), minutxo), ref=T.none(), many=False, collateral=False)
+    src = T.v("Expression", "EvalParam", BoxV(T.v("Param", "ExpectInput", StrM("src", True), iq)))
+    tx = mk_tx(T, fees=fees_leaf(T), inputs=[T.st("Input", name=StrM("src", True), utxos=src, redeemer=T.none())],
+               outputs=[out(T, address=T.address(c03.addr_bytes(c03.ADDR_A)), amount=builtin(T, "Sub", T.v("Expression", "EvalCoerce", BoxV(T.v("Coerce", "IntoAssets", models.vclone(eng, src)))), fees_leaf(T)))])
+    with_hist = eng.choose(2, "instance: fresh / reused after a failing resolution that used min_utxo") == 1
+    fresh, used = new_compiler(eng), new_compiler(eng)
+    try:
+        if with_hist:
+            resolve(ctx, used, failing_history(T, 0), 3)
+        a = resolve(ctx, fresh, tx, 3)
+        b = resolve(ctx, used, tx, 3)
+    except Panic as p:
+        eng.stats.panic_paths += 1
+        if p.kind == "overflow":
+            return
+        ctx.violation("resolve_tx panicked: %s" % p.kind, site=p.site, shape="resolve_tx panics")
+        return
+    ka = "Ok" if a.variant == "Ok" else err_kind(a.fields[0])
+    kb = "Ok" if b.variant == "Ok" else err_kind(b.fields[0])
+    if os.environ.get("C20_DEBUG"):
+        print("PATH", with_hist, ka, kb)
+    if ka == kb:
+        ctx.require(True, "same outcome kind on a fresh and on a reused instance")
+        return
+    if not with_hist:
+        ctx.violation("two fresh instances disagree: %s vs %s" % (ka, kb), shape="outcome kind differs between two fresh instances")
+        return
+    # the difference rests on encoded lengths the engine leaves uninterpreted (how large the earlier
+    # transaction's output was): searched for on the real build with a datum-heavy earlier output
+    import native, tirdump
+    if getattr(ctx, "_native_hist", None) is None:
+        big = T.bytes([0x5A] * 500)
+        earlier = [tirdump.dump(eng, failing_history(T, 0, datum=big), "Tx")]
+        hit = None
+        for L in (1000000, 1500000, 2000000, 2500000, 3000000, 3500000, 4000000):
+            u = dict(ref=dict(txid=[0xC0] * 32, index=0), address=c03.addr_bytes(c03.ADDR_A), assets_list=[["naked", str(L)]], datum=None)
+            r = native.run([dict(cmd="history", tir=tirdump.dump(eng, tx, "Tx"), earlier=earlier, rounds=3, utxos=[u])])[0]
+            if r["fresh"] != r["reused"]:
+                hit = (L, r["fresh"], r["reused"])
+                break
+        ctx._native_hist = hit or False
+    if ctx._native_hist:
+        L, f_, r_ = ctx._native_hist
+        ctx.require(False, "fresh instance: %s, reused instance: %s (real build, wallet of %d lovelace: fresh %s, reused %s)" % (ka, kb, L, str(f_)[:60], str(r_)[:60]),
+                    shape="outcome kind depends on the instance's history (target with an input)", replay=lambda v: True)
+    elif len(ctx.samples) < 3:
+        ctx.samples.append(dict(harness=ctx.hname, obligation="same outcome kind (%s vs %s)" % (ka, kb), result="possible under uninterpreted encoded lengths, equal on the real build for the wallets tried: not reported"))
+
+
+HARNESSES.append(_h("c20_history_with_input", h_history_input, "target with one input (min_amount fees + min_utxo(0)) over a store of one UTxO (value symbolic, < 2^48); instance fresh / reused after a failing resolution that used min_utxo; resolve_tx with max_optimize_rounds = 3",
+                    max_paths=50000, time_limit=1200))
